@@ -392,7 +392,10 @@ class Bench:
         # representable at the library's precision in the unit the request is rounded in (no rounding tie at the last digit)
         if (T / mult / (100 * W.units.q)).denominator != 1:
             return False
-        return T / mult <= 20000
+        # the library's rounding absorbs the float error of the unit conversion only while one float ulp of the total in
+        # storage units is far below the rounding step: 20000 storage units at the shipped precision (ulp 3.6e-12 vs 1e-10),
+        # proportionally less at a finer internal_precision (at p = 12, 8000 umol already carries an ulp of 0.9e-12)
+        return T / mult <= 20000 * (W.units.q * 10 ** 10)
 
     def ev_new_plate(self, ev):
         rep = self.rep
@@ -508,8 +511,11 @@ class Bench:
                 margin_rel = min(margin_rel, abs(m_src) / max(T, abs(value)))
             if m_src < 0 and m_src <= -band_src:
                 return {'status': 'must_refuse', 'why': 'overdraw', 'pair': k, 'margin_rel': margin_rel}
+            # the stored floats of a fresh vessel are the doubles nearest to the user's decimals (0.7 mmol is not 7/10 in a
+            # float): a request that equals their sum up to that representation error is the whole content
+            exactish = fresh_src and k == 0 and T > 0 and abs(m_src) <= T * F(1, 2 ** 46)
             if m_src < band_src:
-                if m_src == 0 and T > 0 and k == 0 and fresh_src and self.exact_total_ok(T, unit):
+                if exactish and self.exact_total_ok(T if m_src == 0 else value, unit):
                     self.stats['probe:whole_content_transfer'] += 1
                 else:
                     status = 'dont_care' if status == 'must_accept' else status
